@@ -315,6 +315,13 @@ func (k *Keeper) ApplyMessageWithConfig(ctx sdk.Context,
 		return nil, errorsmod.Wrap(types.ErrCallDisabled, "failed to call contract")
 	}
 
+	// A message that is not to be committed must not leave anything behind. Discarding the StateDB is
+	// not enough: stateful precompiles write straight to the context (and flush the StateDB into it),
+	// so run such a message on a branch of the state that is dropped.
+	if !commit {
+		ctx, _ = ctx.CacheContext()
+	}
+
 	stateDB := statedb.New(ctx, k, txConfig)
 	evm := k.NewEVM(ctx, msg, cfg, tracer, stateDB)
 
